@@ -8,10 +8,13 @@ from . import langgen as LG
 from . import modelgen as MG
 from .p_lang import reference_steps
 
-IMPORTS = 'Prelude Lang Eval Graph GraphOps Gen GenObs'
+IMPORTS = 'Prelude Lang LangThm Eval Graph GraphOps Gen GenObs LangGraph LangGraphThm OverApprox'
 CASE_TYPE = 'lang * imodel * jv'
 CHECK_DEF = 'Definition check (c : lang * imodel * jv) : bool := gen_check c.'
-EXTRA = {'PREMISES': 'count_true (fun c : lang * imodel * jv => gen_premise (fst (fst c)) (snd (fst c))) cases'}
+EXTRA = {'PREMISES': 'count_true (fun c : lang * imodel * jv => gen_premise (fst (fst c)) (snd (fst c))) cases',
+         'OVERAPPROX_PREMISES': 'count_true (fun c : lang * imodel * jv => let L := fst (fst c) in let M := snd (fst c) in '
+                                'match lang_graph L with LOk g => wf_inherit L && fields_uniqueb (lg_created g) && no_shadowb L && '
+                                'valid_viewb L (lg_created g) M && wt_lang L (lg_created g) | LErr _ => false end) cases'}
 
 
 class Timeout(Exception):
@@ -188,14 +191,23 @@ def property_violations(pid, L, view, g) -> list[str]:
 
 
 # ----------------------------------------------------------------------------- driver
-def observe(impl, lg, m):
-    """Run generation on the implementation; canonical observation (same shape as GenObs.obs_generate)."""
+def observe(impl, lg, m, regen=None):
+    """Run generation on the implementation; canonical observation (same shape as GenObs.obs_generate).
+    With regen = a callable, the graph is first generated, then the model is edited by regen(m), then the graph is
+    regenerated in place: it must be indistinguishable from a freshly generated one."""
     from maltoolbox.attackgraph import AttackGraph
     from maltoolbox.exceptions import AttackGraphStepExpressionError
     old = signal.signal(signal.SIGALRM, _alarm)
     signal.alarm(10)
     try:
         g = AttackGraph(lg, m)
+        if regen is not None:
+            try:
+                g.attach_attackers()
+            except Exception:
+                pass
+            regen(m, g)
+            g.regenerate_graph()
     except Timeout:
         return ['error', 1], None
     except RecursionError:
@@ -240,7 +252,8 @@ def ops_language():
     }
     steps = [LG.step('t', 'or')] + [LG.step(n, 'or', reaches=[e]) for n, e in exprs.items()]
     steps.append(LG.step('ex', 'exist', requires=[I(F('pb'), F('qb'))]))
-    return LG.lang([LG.asset('Aa', None, steps, variables=[('vv', CO(F('pb'), F('qb')))]), LG.asset('Bb', 'Aa')],
+    return LG.lang([LG.asset('Aa', None, steps, variables=[('vv', CO(F('pb'), F('qb')))]), LG.asset('Bb', 'Aa'),
+                    LG.asset('Cc', 'Bb'), LG.asset('Dd', 'Cc')],
                    [LG.assoc('Pp', 'Aa', 'pa', 'Aa', 'pb'), LG.assoc('Qq', 'Aa', 'qa', 'Aa', 'qb')])
 
 
@@ -267,14 +280,14 @@ def ops_models(impl, lg, lcf, rng, tier):
         return m
     for n in (1, 2):
         possible = [(c, l, r) for c in ('Pp', 'Qq') for l in range(n) for r in range(n)]
-        for types in itertools.product(['Aa', 'Bb'], repeat=n):
-            for k in range(0, 4):
+        for types in itertools.product(['Aa', 'Bb', 'Cc', 'Dd'], repeat=n):
+            for k in range(0, 4 if n == 1 else 3):
                 for links in itertools.combinations(possible, k):
                     yield 'exhaustive', build(types, links)
     for _ in range(250 if tier == 'quick' else 4000):
         n = rng.randint(3, 4)
         possible = [(c, l, r) for c in ('Pp', 'Qq') for l in range(n) for r in range(n)]
-        types = [rng.choice(['Aa', 'Bb']) for _ in range(n)]
+        types = [rng.choice(['Aa', 'Bb', 'Cc', 'Dd']) for _ in range(n)]
         links = rng.sample(possible, rng.randint(3, 7))
         yield 'dense', build(types, links)
 
@@ -282,6 +295,8 @@ def ops_models(impl, lg, lcf, rng, tier):
 def make_cases(pid, impl, tier, seed):
     rng = random.Random(seed * 15485863 + (1 if pid == 'C01' else 2))
     n = {'quick': 300, 'thorough': 5000}[tier]
+    if pid == 'C09':
+        n = {'quick': 120, 'thorough': 2000}[tier]
     out = []
     if pid == 'C01':
         L = ops_language()
@@ -297,8 +312,35 @@ def make_cases(pid, impl, tier, seed):
             out.append({'L': L, 'error': repr(e)})
             continue
         m = MG.gen_model(impl, rng, L, lg, lcf, tricky_names=(0.25 if pid == 'C02' else 0.0))
-        out.append({'L': L, 'lg': lg, 'm': m, 'stream': 'random'})
+        if pid in ('C02', 'C09') and (i % 3 == 0 or pid == 'C09'):
+            out.append({'L': L, 'lg': lg, 'm': m, 'stream': 'regenerated', 'regen': make_regen(impl, random.Random(rng.random()), lcf)})
+        else:
+            out.append({'L': L, 'lg': lg, 'm': m, 'stream': 'random'})
     return out
+
+
+def make_regen(impl, rng, lcf):
+    """An edit of the model between generation and regeneration: remove assets, add assets, drop an association,
+    add an attacker, compromise / remove something in the old graph."""
+    def regen(m, g):
+        from maltoolbox.model import AttackerAttachment
+        for _ in range(rng.randint(1, 3)):
+            r = rng.random()
+            try:
+                if r < 0.4 and m.assets:
+                    m.remove_asset(rng.choice(m.assets))
+                elif r < 0.7:
+                    types = [a.name for a in lcf.lang_graph.assets]
+                    t = rng.choice(types)
+                    m.add_asset(getattr(lcf.ns, t)(name=f'new{rng.randrange(3)}'))
+                elif r < 0.85 and m.associations:
+                    m.remove_association(rng.choice(m.associations))
+                elif g.nodes:
+                    g.remove_node(rng.choice(g.nodes))
+            except Exception:
+                pass
+    return regen
+
 
 
 def check(pid: str, tier: str, seed: int):
@@ -312,8 +354,13 @@ def check(pid: str, tier: str, seed: int):
                 metas.append({'L': c['L'], 'prop_viol': ['a generated well-formed language was rejected: ' + c['error']], 'skip': True})
                 continue
             v = MG.view(c['m'])
-            obs, g = observe(impl, c['lg'], c['m'])
-            pv = property_violations(pid, c['L'], v, g if g is not None else obs)
+            obs, g = observe(impl, c['lg'], c['m'], c.get('regen'))
+            v = MG.view(c['m'])
+            pv = property_violations('C02' if pid == 'C09' else pid, c['L'], v, g if g is not None else obs)
+            if c.get('regen') is not None and g is not None:
+                if len(g._full_name_to_node) != len(g.nodes) or len(g._id_to_node) != len(g.nodes) or g.attackers or g._id_to_attacker \
+                        or g.next_attacker_id != 0 or g.next_node_id != len(g.nodes):
+                    pv.append('a regenerated graph differs from a freshly generated one (stale indexes, attackers or counters)')
             cases.append(f"({LG.c_lang(c['L'])}, {MG.c_imodel(v)}, {C.cjv(obs)})")
             metas.append({'L': c['L'], 'view': v, 'obs': obs, 'prop_viol': pv, 'stream': c['stream']})
             count_ops(c['L'], ops_hist)
@@ -348,7 +395,7 @@ def check(pid: str, tier: str, seed: int):
                    'many-to-many / self links' + (', names containing ":" and colliding names' if pid == 'C02' else '') +
                    '); non-trivial = the generated graph has at least one edge; distinct by the whole observation',
            'samples': [real[0]['view'], real[-1]['obs'][1][:3] if real and real[-1]['obs'][0] == 'ok' else None] if real else [],
-           'operator_histogram': ops_hist, 'streams': {k: sum(1 for m in real if m.get('stream') == k) for k in ('exhaustive', 'dense', 'random')}, 'premises_met': counters.get('PREMISES', 0),
+           'operator_histogram': ops_hist, 'streams': {k: sum(1 for m in real if m.get('stream') == k) for k in ('exhaustive', 'dense', 'random', 'regenerated')}, 'premises_met': counters.get('PREMISES', 0),
            'error_outcomes': sum(1 for m in real if m['obs'][0] == 'error'), 'edges_total': n_edges,
            'mismatches': len(bad), 'exhaustive': False}
     return {'violations': violations, 'coverage': cov,
